@@ -667,3 +667,58 @@ transform:
     assert_eq!(metas.transformed["B"], "2");
   }
 }
+
+#[cfg(feature = "verif-hooks")]
+pub mod verif_hooks {
+  use super::*;
+  use ast_grep_language::SupportLang;
+
+  fn style_of(style: &str) -> JsonStyle {
+    match style {
+      "pretty" => JsonStyle::Pretty,
+      "stream" => JsonStyle::Stream,
+      _ => JsonStyle::Compact,
+    }
+  }
+
+  /// `before_print`, `process` for every buffer in order, `after_print` on the real printer
+  pub fn json_frame(style: &str, buffers: Vec<Vec<u8>>) -> Vec<u8> {
+    let mut printer = JSONPrinter::new(Vec::new(), style_of(style));
+    printer.before_print().expect("before_print");
+    for b in buffers {
+      printer.process(b).expect("process");
+    }
+    printer.after_print().expect("after_print");
+    printer.output
+  }
+
+  /// the real `JSONProcessor::print_docs`
+  pub fn json_print_docs(style: &str, docs: Vec<serde_json::Value>) -> Vec<u8> {
+    let processor = JSONProcessor {
+      style: style_of(style),
+      context: (0, 0),
+    };
+    processor.print_docs(docs.into_iter()).expect("print_docs")
+  }
+
+  /// the real `JSONProcessor::print_matches` (one file's buffer) for selected nodes of `src`
+  pub fn json_matches(
+    src: &str,
+    lang: SupportLang,
+    pattern: Option<&str>,
+    ranges: &[(usize, usize)],
+    style: &str,
+    context: (u16, u16),
+    path: &str,
+  ) -> Vec<u8> {
+    let grep = crate::print::verif_hooks::parse(src, lang);
+    let matches = crate::print::verif_hooks::select(&grep, pattern, ranges);
+    let processor = JSONProcessor {
+      style: style_of(style),
+      context,
+    };
+    processor
+      .print_matches(matches, Path::new(path))
+      .expect("print_matches")
+  }
+}
